@@ -36,25 +36,29 @@ TABLE = {
    groups=[("KeystoneParseWf.v", ["parse_wf_doc_tree", "parse_no_adjacent_text", "parse_single_root_element", "parse_no_text_under_root"]),
            ("KeystoneParse.v", ["parse_links_tree"])]),
  "C07": dict(
-   intro="C07 -- an entity reference is equivalent to its replacement text written in place.\n   Machine level: processing pre ++ mid ++ post inline equals processing pre, then mid as an entity value\n   (its own stream, entity mode), then post -- for attribute values and for character data -- provided no\n   CR LF pair is split by a cut (XML 2.11 normalises line ends per entity; the two *_split_crlf lemmas show\n   the proviso is necessary).  On the model: at an entity reference the loops really run the replacement\n   text in place (norm_attr_entity_step, text_loop_entity_step); the first declaration of a name wins.\n   Not proved: the tokenizer concatenation lemma for replacement texts containing markup (D15 is the\n   known finding in that area); covered by the metamorphic correspondence.",
-   imports=["From RX.Spec Require Import Text.", "From RX.Proofs Require Import TextMachine HoistProofs RejectProofs."],
-   groups=[("HoistProofs.v", ["push_attr_chunks_app", "push_attr_lits_depth", "attr_hoist_equiv", "attr_hoist_normalise", "norm_attr_entity_step",
+   intro="C07 -- an entity reference is equivalent to its replacement text written in place.\n   Machine level: processing pre ++ mid ++ post inline equals processing pre, then mid as an entity value\n   (its own stream, entity mode), then post -- for attribute values and for character data -- provided no\n   CR LF pair is split by a cut (XML 2.11 normalises line ends per entity; the two *_split_crlf lemmas show\n   the proviso is necessary).  On the model: at an entity reference the loops really run the replacement\n   text in place (norm_attr_entity_step, text_loop_entity_step); the first declaration of a name wins.\n   Whole documents on the fragment of Spec/CstEnt.v (the CstText fragment plus an internal DTD subset declaring general\n   entities, references in content and in attribute values, nested up to the documented limits, re-declarations):\n   sem c is DEFINED as the meaning of the document with every reference replaced by its (first-declared) replacement\n   text, computed on the abstract syntax; parse (render c) yields exactly that (parse_render_sem_ent_partial), so two\n   documents that differ only in what is routed through entities (hoist_insensitive_partial), and a document and its\n   fully inlined DOCTYPE-free version (inlined_equiv_partial), give identical trees.  `_partial`: entities whose\n   replacement text is character data (etext_only c: literals, character / predefined references, nested references);\n   replacement texts containing markup are decided by the metamorphic correspondence (D15 is the known finding there).\n   With allow_dtd = false the same rendering gives Err DtdDetected (dtd_refused, markup entities included).",
+   imports=["From RX.Spec Require Import Text.", "From RX.Spec Require Cst CstText CstEnt.", "From RX.Proofs Require Import TextMachine HoistProofs RejectProofs CstMain CstTextSem CstEntSem CstEntDoc CstEntMain."],
+   groups=[("CstEntMain.v", ["parse_render_sem_ent_partial", "hoist_insensitive_partial", "inlined_equiv_partial", "dtd_refused"], "Module E := CstEnt."),
+           ("HoistProofs.v", ["push_attr_chunks_app", "push_attr_lits_depth", "attr_hoist_equiv", "attr_hoist_normalise", "norm_attr_entity_step",
                               "push_text_chunks_app", "text_boundary", "text_hoist_equiv", "text_hoist_decode", "text_loop_entity_step",
                               "entity_first_declaration_wins", "text_hoist_split_crlf", "attr_hoist_split_crlf"]),
            ("RejectProofs.v", ["find_entity_first", "ok_refs_defined_first"], "Local Notation token := Tokenizer.token.")]),
  "C08": dict(
-   intro="C08 -- ill-formed documents are rejected.  (1) the three character classes are the Fifth Edition\n   productions for every scalar value (tables regenerated from the source on every run);\n   (2) local rejection theorems, 'accepted implies constraint': comment bodies, ']]>' in text, misplaced\n   declaration, '<' in attribute values, every consumed character is a Char, end tags match the open\n   element and cannot close an element opened outside the current entity, reserved prefixes and URIs,\n   entity references are declared (first declaration wins), and the document-level token shape: only\n   comments / PIs (and entity declarations) before the root, at most one root element, only\n   comments / PIs after it.",
-   imports=["From RX.Spec Require Chars.", "From RX.Proofs Require Import CharTablesProofs RejectProofs WfParseTok WfParseChars WfParse."],
+   intro="C08 -- ill-formed documents are rejected.  (1) the three character classes are the Fifth Edition\n   productions for every scalar value (tables regenerated from the source on every run);\n   (2) local rejection theorems, 'accepted implies constraint': comment bodies, ']]>' in text, misplaced\n   declaration, '<' in attribute values, every consumed character is a Char, end tags match the open\n   element and cannot close an element opened outside the current entity, reserved prefixes and URIs,\n   entity references are declared (first declaration wins), and the document-level token shape: only\n   comments / PIs (and entity declarations) before the root, at most one root element, only\n   comments / PIs after it.  (3) Soundness against the grammar on the byte fragment that Spec/Cst.v covers\n   (in_fragment, Proofs/CstSound.v: printable ASCII / TAB / LF, no '&', no ':', no '<!D' '<![' '<?xml' 'xmlns';\n   attrs_raw: no attribute value was normalised): every ACCEPTED input is the rendering of a well-formed abstract\n   document (parse_sound_fragment) -- the parser accepts nothing outside the grammar there -- and its tree is that\n   document's meaning (parse_sound_and_complete).  (4) Truncation: for EVERY accepted document without a DOCTYPE and\n   every cut (on a character boundary) before the end of its root element, the prefix is rejected\n   (truncation_rejected_partial; root_element_end d and firstn_N are defined in Proofs/TruncMain.v).",
+   imports=["From RX.Spec Require Chars.", "From RX.Spec Require Cst.", "From RX.Proofs Require Import CharTablesProofs RejectProofs WfParseTok WfParseChars WfParse CstSound CstSoundDoc CstSoundCor TruncMain."],
    groups=[("CharTablesProofs.v", ["char_tables_conform", "byte_tables_conform", "byte_space_conform", "byte_char_agree"]),
            ("RejectProofs.v", ["ok_comment_body", "ok_text_no_cdata_end", "ok_pi_not_declaration", "ok_no_lt_in_attr", "skip_chars_only_chars",
                                "skip_chars_only_chars_text", "consume_chars_only_chars", "ok_tags_balanced", "ok_reserved_names",
                                "ok_element_prefix_not_xmlns", "find_entity_first", "ok_refs_defined", "ok_refs_defined_first",
                                "ok_document_shape", "ok_no_text_before_root"], "Local Notation token := Tokenizer.token."),
-           ("WfParse.v", ["parse_comments_ok", "parse_names_are_names", "parse_all_chars", "parse_doc_wf"])]),
+           ("WfParse.v", ["parse_comments_ok", "parse_names_are_names", "parse_all_chars", "parse_doc_wf"]),
+           ("CstSoundDoc.v", ["parse_sound_fragment"]), ("CstSoundCor.v", ["parse_sound_and_complete"]),
+           ("TruncMain.v", ["truncation_not_ok_partial", "truncation_rejected_partial"])]),
  "C03": dict(
-   intro="C03 -- elements, comments and PIs mirror the document's logical structure.  Lexer post-conditions\n   (with a token recorder as callback): a comment token's text is exactly the source between '<!--' and\n   '-->'; a PI's target and value are the source strings (value without leading whitespace, None when\n   empty); CDATA / text tokens are their source slices; the DOCTYPE and the prolog / epilog deliver only\n   comments, PIs (and entity declarations); a start tag delivers ElementStart, attributes, one ElementEnd.\n   The XML declaration has no callback at all.  Document-level token shape: Proofs/RejectProofs.v.\n   Completeness on the fragment of Spec/Cst.v (ASCII names and content, no DOCTYPE, references, namespaces, CR): every\n   rendering of a well-formed abstract document -- with any layout choices: whitespace in tags, quote style,\n   empty-element syntax, prolog / epilog comments and PIs -- parses to exactly its meaning (view = sem:\n   kinds, names, attributes in order with values, comment text, PI target / value, text, children counts), so two\n   renderings with the same meaning give the same tree (layout_insensitive).  view is defined in Proofs/CstMain.v.",
-   imports=["From RX.Spec Require Cst.", "From RX.Proofs Require Import LexerProofs RejectProofs CstMain."],
+   intro="C03 -- elements, comments and PIs mirror the document's logical structure.  Lexer post-conditions\n   (with a token recorder as callback): a comment token's text is exactly the source between '<!--' and\n   '-->'; a PI's target and value are the source strings (value without leading whitespace, None when\n   empty); CDATA / text tokens are their source slices; the DOCTYPE and the prolog / epilog deliver only\n   comments, PIs (and entity declarations); a start tag delivers ElementStart, attributes, one ElementEnd.\n   The XML declaration has no callback at all.  Document-level token shape: Proofs/RejectProofs.v.\n   Completeness on the fragment of Spec/Cst.v (ASCII names and content, no DOCTYPE, references, namespaces, CR): every\n   rendering of a well-formed abstract document -- with any layout choices: whitespace in tags, quote style,\n   empty-element syntax, prolog / epilog comments and PIs -- parses to exactly its meaning (view = sem:\n   kinds, names, attributes in order with values, comment text, PI target / value, text, children counts), so two\n   renderings with the same meaning give the same tree (layout_insensitive).  view is defined in Proofs/CstMain.v.\n   The same over Unicode (Spec/CstU.v: names, values, text, comments, PIs are lists of scalar values in the 5th-edition\n   Name / Char classes, rendered in UTF-8): parse_render_sem_u, layout_insensitive_u, render_valid_utf8.",
+   imports=["From RX.Spec Require Cst.", "From RX.Spec Require CstU.", "From RX.Proofs Require Import LexerProofs RejectProofs CstMain CstUMain."],
    groups=[("CstMain.v", ["parse_render_sem", "layout_insensitive"]),
+           ("CstUMain.v", ["render_valid_utf8", "parse_render_sem_u", "layout_insensitive_u"]),
            ("LexerProofs.v", ["parse_comment_post", "parse_pi_post", "parse_cdata_post", "parse_text_post", "parse_close_element_post",
                               "parse_doctype_tokens", "parse_misc_tokens", "parse_element_tokens"], "Local Notation token := Tokenizer.token.", "forall (text : bytes),"),
            ("RejectProofs.v", ["ok_document_shape", "ok_no_text_before_root"], "Local Notation token := Tokenizer.token.")]),
@@ -118,11 +122,12 @@ TABLE = {
            ("LexerProofs.v", ["parse_comment_post", "parse_pi_post", "parse_cdata_post", "parse_text_post", "parse_element_tokens",
                               "parse_close_element_post"], "Local Notation token := Tokenizer.token.", "forall (text : bytes),")]),
  "C14": dict(
-   intro="C14 -- text positions and error reports: text_pos_at is total on valid UTF-8, clamps, counts\n   rows by LF and columns in characters, stays in bounds and moves with inserted line breaks / spaces;\n   every Err returned by parse carries the position of an offset inside the input (or is one of the\n   seven position-less variants, which report 1:1), hence row / column are within the input.  Shift over a whole\n   parse: whitespace put in front of a document (no BOM / declaration) leaves the outcome unchanged -- an Ok result is\n   the same document with shifted offsets, an Err has the same variant and payload and is reported at the same place of\n   the document (offset + k), i.e. k spaces move the column of a row-1 error by k, k line breaks move the row by k.",
-   imports=["From RX.Proofs Require Import PositionProofs ErrPosStream ErrPosTokenizer ErrPosParse ErrPayload RangeShiftBuilder ErrShiftBase ErrShiftFinal."],
+   intro="C14 -- text positions and error reports: text_pos_at is total on valid UTF-8, clamps, counts\n   rows by LF and columns in characters, stays in bounds and moves with inserted line breaks / spaces;\n   every Err returned by parse carries the position of an offset inside the input (or is one of the\n   seven position-less variants, which report 1:1), hence row / column are within the input.  Shift over a whole\n   parse: whitespace put in front of a document (no BOM / declaration) leaves the outcome unchanged -- an Ok result is\n   the same document with shifted offsets, an Err has the same variant and payload and is reported at the same place of\n   the document (offset + k), i.e. k spaces move the column of a row-1 error by k, k line breaks move the row by k.\n   The same for whitespace inserted at any insertion point of the prolog before a DOCTYPE (after the BOM / XML\n   declaration, after each comment or PI of the first Misc run; insertion_point is defined operationally and is\n   decidable by insertion_point_b): parse_err_shift_mid_partial, parse_ok_shift_mid_partial and the spaces / lines\n   corollaries (an error on the insertion point's row moves by k columns; k line breaks move the row by k).",
+   imports=["From RX.Proofs Require Import PositionProofs ErrPosStream ErrPosTokenizer ErrPosParse ErrPayload RangeShiftBuilder ErrShiftBase ErrShiftFinal ErrShiftMidCore ErrShiftMidFinal."],
    groups=[("PositionProofs.v", ["text_pos_total_valid", "text_pos_clamped", "text_pos_on_boundary", "text_pos_bounds", "text_pos_shift_lines_valid",
                                  "text_pos_shift_spaces_valid", "text_pos_shift_lines_gen", "text_pos_shift_spaces_gen"]),
            ("ErrShiftFinal.v", ["parse_err_shift", "parse_ok_shift", "parse_err_shift_spaces", "parse_err_shift_lines"]),
+           ("ErrShiftMidFinal.v", ["parse_err_shift_mid_partial", "parse_ok_shift_mid_partial", "parse_err_shift_mid_spaces", "parse_err_shift_mid_lines"]),
            ("ErrPosTokenizer.v", ["tokenizer_errors_positioned"], "Local Notation token := Tokenizer.token."),
            ("ErrPosParse.v", ["token_errors_positioned", "parse_errors_positioned", "parse_error_in_bounds"]),
            ("ErrPayload.v", ["parse_error_payload_from_source"])]),
